@@ -202,6 +202,10 @@ def execute(case: dict) -> Outcome:
             # edit the live time course in place, then track it again
             rt = cfg["retrack"]
             nonempty = [k for k, e in enumerate(etc.emulsions) if len(e)]
+            if not nonempty:
+                # the first pass emptied the caller's time course (reported there as C06.O4)
+                counts = [len(e) for e in etc.emulsions]
+                continue
             k = nonempty[rt["frame"] % len(nonempty)]
             em = etc.emulsions[k]
             i = rt["drop"] % len(em)
